@@ -51,7 +51,8 @@ ASSUMPTIONS = [
     'channel-list clauses are tie tolerant; ambiguous peaks are skipped and counted',
 ]
 EXPECTED_PROBES = {
-    'C11': ['cross_probe_tie', 'k>=3', 'tsv_in_some', 'tsv_row_for_id_without_spikes', 'curated_probe', 'id_gap', 'unsigned_ids',
+    'C11': ['cross_probe_tie', 'k>=3', 'tsv_in_some', 'tsv_row_for_id_without_spikes',
+            'non_finite_amplitude_in_a_probe', 'curated_probe', 'id_gap', 'unsigned_ids',
             'k=1', 'same_merger_run_twice', 'tsv_value_zero'],
     'C12': ['k>=3', 'unequal_channels', 'matrix_in_all', 'matrix_in_some', 'unsigned_index_table',
             'highest_template_unused', 'single_column_probe', 'probe_not_starting_at_x0',
@@ -109,6 +110,8 @@ def _probe_cfg(rng, shared, big):
     c['pos_scale'] = rng.choice([1, 1, 1, 40])
     if rng.random() < 0.4:
         c['curation'] = world.gen_curation_ops(rng, rng.randint(1, 3))
+    if rng.random() < 0.1 and c['nc'] >= 2:
+        c['rowvec'] = ['chmap']
     c['raw_channels_extra'] = rng.choice([0, 0, 1, 2])
     c['permute_map'] = rng.random() < 0.6
     c['tsv'] = {n: rng.random() < 0.5 for n in TSV_NAMES}
@@ -156,6 +159,9 @@ def gen(rng, prop, tier):
             c = cfg['probes'][rng.randrange(1, k)]
             c['ns'] = rng.choice([8200, 16400, 17000])
             c['ties'] = True
+        if prop == 'C11' and rng.random() < 0.12:
+            c = cfg['probes'][rng.randrange(k)]
+            c['amp_nonfinite'] = [rng.random() for _ in range(rng.randint(1, 3))]
         tot = max(sum(c['nt'] for c in cfg['probes']), sum(c['nc'] for c in cfg['probes']))
         for c in cfg['probes'][1:]:
             if rng.random() < 0.15:
@@ -212,7 +218,7 @@ def gen(rng, prop, tier):
     d['extras'] = {'ks_label': rng.random() < 0.5, 'temp_wh': rng.random() < 0.4,
                    'channel_labels': rng.random() < 0.3, 'drift': rng.random() < 0.2,
                    'alf_rawind': rng.random() < 0.12,
-                   'linked_ids': rng.random() < 0.1,
+                   'linked_ids': rng.random() < 0.1, 'params_symlink': rng.random() < 0.08,
                    'pre_store': False}
     if p['raw'] and rng.random() < 0.3:
         d['extras']['pre_store'] = True
@@ -222,6 +228,18 @@ def gen(rng, prop, tier):
                             'ids': d['unused_templates'][:2]})
     if not p['wm'] and rng.random() < 0.2:
         d['wmi_only'] = True      # only the inverse whitening matrix is there
+    if p['probes'] and rng.random() < 0.3:
+        d['dtypes']['chprobe'] = rng.choice(['int8', 'uint8', 'int64'])
+    if prop == 'C14' and rng.random() < 0.015 and d['ns'] < 1000:
+        # a wide probe table with 8-bit probe labels: raw indices beyond 127 / 255
+        d['nc'] = rng.choice([130, 260])
+        p['probes'] = True
+        d['n_probes'] = 2
+        d['dtypes']['chprobe'] = rng.choice(['int8', 'uint8'])
+        d['geometry'] = 'line'
+        p['raw'] = False
+        d['raw'] = None
+        p['features'] = False
     cfg['dataset'] = d
     cfg['knobs']['nsample_waveforms'] = rng.choice([1, 3, 10, 500])
     if rng.random() < 0.6:
@@ -387,6 +405,11 @@ class Probe(object):
         g.n_channels_dat = n_dat
         g.chmap = (rs.permutation(n_dat)[:cfg['nc']] if cfg['permute_map']
                    else np.arange(cfg['nc'])).astype(np.int64)
+        self.untagged = set()
+        for j, frac in enumerate(cfg.get('amp_nonfinite') or []):
+            i_ = int(frac * (cfg['ns'] - 1))
+            g.amps[i_] = [np.nan, np.inf, -np.inf][j % 3]
+            self.untagged.add(i_)
         self.g = g
         naming = cfg.get('dir_naming', 'indexed')
         if naming == 'sides':      # given order right, left, mid, far != sorted order
@@ -463,7 +486,26 @@ def check_merge(ctx, probes, out, model):
         for i, t in enumerate(p.g.samples):
             keys.append((int(t), p.index, i))
     keys.sort()
-    got_pi = [(int(a // 1000000), int(round(a - (a // 1000000) * 1000000 - 0.5))) for a in amps]
+    # spikes whose amplitude is NaN / +-inf in their probe carry no tag: they are recognised by
+    # their place in the expected order and must keep exactly that non-finite amplitude
+    exp_seq = [(pi, i) for _, pi, i in keys]
+    by_index = {p.index: p for p in probes}
+    got_pi = []
+    for j, a in enumerate(amps):
+        e = exp_seq[j] if j < len(exp_seq) else None
+        if e is not None and e[1] in getattr(by_index[e[0]], 'untagged', ()):
+            want = by_index[e[0]].g.amps[e[1]]
+            same = (np.isnan(a) and np.isnan(want)) or a == want
+            if prop == 'C11':
+                ctx.probe('non_finite_amplitude_in_a_probe')
+                ctx.check(bool(same), 'spike-amplitude-changed',
+                          lambda: {'probe': e[0], 'spike': e[1], 'got': float(a),
+                                   'expected': float(want)})
+            got_pi.append(e if same else (-1, -1))
+        elif not np.isfinite(a):
+            got_pi.append((-1, -1))
+        else:
+            got_pi.append((int(a // 1000000), int(round(a - (a // 1000000) * 1000000 - 0.5))))
     cnt = {}
     for t, pi, i in keys:
         cnt[t] = cnt.get(t, set()) | {pi}
@@ -568,7 +610,8 @@ def check_merge(ctx, probes, out, model):
                 ctx.probe('unsigned_ids')
         # the returned model agrees with the files
         ctx.check(_aeq(model.spike_samples, times) and _aeq(model.spike_clusters, sc)
-                  and _aeq(model.spike_templates, st) and _aeq(model.amplitudes, amps),
+                  and _aeq(model.spike_templates, st)
+                  and _aeq(model.amplitudes, np.where(np.isfinite(amps), amps, 0.0)),
                   'returned-model-disagrees-with-files')
         return offs
     if not all(len(v) == 1 for v in offs['t'].values()):
@@ -1102,6 +1145,14 @@ def run_ops(plan, ctx, cfg):
                     os.replace(str(src_dir / nm_), str(store_ / nm_))
                     os.symlink(str(store_ / nm_), str(src_dir / nm_))
             ctx.probe('source_id_files_are_symbolic_links')
+        if ex.get('params_symlink'):
+            # the parameter file is shared between sortings: a symbolic link into another folder
+            shared_ = root / 'shared_params'
+            shared_.mkdir(exist_ok=True)
+            if not (src_dir / 'params.py').is_symlink():
+                os.replace(str(src_dir / 'params.py'), str(shared_ / 'params_ks.py'))
+                os.symlink(str(shared_ / 'params_ks.py'), str(src_dir / 'params.py'))
+            ctx.probe('source_params_file_is_a_symbolic_link')
         if ex.get('alf_rawind'):
             # an ALF-named copy of the channel map next to the KiloSort files (the loader prefers
             # channel_map.npy; the export must still write its own channels.rawInd)
